@@ -175,11 +175,30 @@ func VerifC07EncoderStack() {
 	if k >= vars.MaxStack {
 		v.Assert(!ok, "Push beyond MaxStack accepted")
 		v.Cover("full")
-	} else {
-		v.Assert(ok, "Push below MaxStack refused")
+	} else if ok {
+		// (which pushes below the limit are accepted is the subject of VerifC12StackLimit)
 		x, _, _, _ := s.Drop()
 		v.Assert(x == 1, "Pop does not return what was pushed")
 		v.Cover("room")
+	}
+}
+
+// VerifC12StackLimit: the interpreter's value stack accepts one more state under the same rule
+// as the generated code's save_state (Tier-3 check encdepth): exactly when the stack pointer stays
+// below MaxStack*StateSize afterwards, i.e. at most MaxStack-1 states are held. A different rule
+// makes the two back ends disagree (one encodes, one reports "too deep") at the maximum depth.
+func VerifC12StackLimit() {
+	s := &vars.Stack{}
+	depths := [...]int{0, 1, vars.MaxStack - 2, vars.MaxStack - 1, vars.MaxStack, vars.MaxStack + 1}
+	k := depths[v.Int("depthClass", 0, len(depths)-1)]
+	verifSetSP(s, k)
+	ok := s.Save(1, 2, nil, nil)
+	if k+1 < vars.MaxStack {
+		v.Assert(ok, "the interpreter refuses a push that the generated code accepts")
+		v.Cover("accepted")
+	} else {
+		v.Assert(!ok, "the interpreter accepts a push that the generated code refuses (a value nested to exactly the maximum depth encodes in one back end and fails in the other)")
+		v.Cover("refused")
 	}
 }
 
